@@ -75,8 +75,31 @@ func (a AbsVal) join(b AbsVal) AbsVal {
 			out.Nodes[k] = true
 		}
 	}
-	out.Funcs = append(append([]*FuncVal{}, a.Funcs...), b.Funcs...)
-	out.Cells = append(append([]CellRef{}, a.Cells...), b.Cells...)
+	for _, f := range append(append([]*FuncVal{}, a.Funcs...), b.Funcs...) {
+		dup := false
+		for _, g := range out.Funcs {
+			if g.Fn == f.Fn && g.Env == f.Env && g.MC == f.MC {
+				dup = true
+			}
+		}
+		if !dup {
+			out.Funcs = append(out.Funcs, f)
+		}
+	}
+	for _, c := range append(append([]CellRef{}, a.Cells...), b.Cells...) {
+		dup := false
+		for _, g := range out.Cells {
+			if g.A == c.A && g.Env == c.Env {
+				dup = true
+			}
+		}
+		if !dup {
+			out.Cells = append(out.Cells, c)
+		}
+	}
+	if len(out.Funcs) > 64 || len(out.Cells) > 64 {
+		return topVal
+	}
 	return out
 }
 
@@ -632,7 +655,13 @@ func (e *Effects) evalCall(c *ssa.Call, idx int, env *Env, d int) AbsVal {
 		}
 		return topVal
 	case has("(*mysql.Node).Host"):
-		recv := e.eval(c.Call.Args[0], env, d+1)
+		var rv ssa.Value
+		if c.Call.IsInvoke() {
+			rv = c.Call.Value
+		} else if len(c.Call.Args) > 0 {
+			rv = c.Call.Args[0]
+		}
+		recv := e.eval(rv, env, d+1)
 		if !recv.Top && len(recv.Nodes) == 1 && recv.Nodes["local"] {
 			return strVal("$self")
 		}
@@ -772,6 +801,11 @@ func (e *Effects) unguardedBlocks(fn *ssa.Function, o WalkOpts) map[*ssa.BasicBl
 			cut := false
 			for _, l := range fa.EdgeLits(b, si) {
 				for _, g := range o.Gate {
+					if g(l) {
+						cut = true
+					}
+				}
+				for _, g := range e.p.AlwaysCut {
 					if g(l) {
 						cut = true
 					}
